@@ -7,7 +7,7 @@ import json, os, subprocess, sys
 ROOT = os.path.dirname(os.path.dirname(os.path.abspath(__file__)))
 GV = os.path.join(ROOT, "harness", "target", "debug", "gv")
 N = 16
-subprocess.check_call(["cargo", "build", "--offline", "-q"], cwd=os.path.join(ROOT, "harness"), stderr=subprocess.DEVNULL)
+subprocess.check_call(["cargo", "build", "--offline", "-q", "-p", "gv"], cwd=os.path.join(ROOT, "harness"), stderr=subprocess.DEVNULL)
 procs = []
 for i in range(N):
     out = "/verif/harness/target/shards/known_%d.json" % i
